@@ -263,7 +263,7 @@ def load_module_from_file_object(
             raise ImportError(
                 "%s is interim Python %s (%d) bytecode which is "
                 "not supported.\nFinal released versions are "
-                "supported." % (filename, versions[magic], magic2int(magic))
+                "supported." % (filename, magicint2version[magic_int], magic_int)
             )
         elif magic_int == 62135:
             fp.seek(0)
@@ -278,7 +278,7 @@ def load_module_from_file_object(
             raise ImportError(
                 "%s is a dropbox-hacked Python %s (bytecode %d).\n"
                 "See https://github.com/kholia/dedrop for how to "
-                "decrypt." % (filename, versions[magic], magic2int(magic))
+                "decrypt." % (filename, magicint2version[magic_int], magic_int)
             )
 
         try:
